@@ -282,8 +282,11 @@ fn probe_marker_order() -> Result<(), Failure> {
         skipped: false,
         config: false,
         compactable: false,
+        bitstore: false,
+        bitorder: false,
     };
     let prog = Program {
+        name_style: 0,
         defs: vec![Def {
             path: vec!["krate".into(), "Unused".into()],
             params: vec![p("T"), p("U")],
